@@ -242,7 +242,7 @@ type target struct {
 }
 
 func newTarget(t hx.TB) *target {
-	ln, err := net.Listen("tcp", "127.0.0.1:0")
+	ln, err := hx.Listen("tcp", "127.0.0.1:0")
 	if err != nil {
 		t.Fatalf("listen: %v", err)
 	}
@@ -358,7 +358,7 @@ func runSession(t hx.TB, ln net.Listener, tg *target, c cfg, before2, after2 []c
 			_ = h.Handle(cx)
 		}()
 	}()
-	cli, err := net.Dial("tcp", ln.Addr().String())
+	cli, err := hx.Dial("tcp", ln.Addr().String())
 	if err != nil {
 		t.Fatalf("dial: %v", err)
 	}
@@ -447,7 +447,7 @@ func runSession(t hx.TB, ln net.Listener, tg *target, c cfg, before2, after2 []c
 }
 
 func TestSessions(t *testing.T) {
-	ln, err := net.Listen("tcp", "127.0.0.1:0")
+	ln, err := hx.Listen("tcp", "127.0.0.1:0")
 	if err != nil {
 		t.Fatal(err)
 	}
